@@ -45,6 +45,11 @@ type scenario struct {
 	// sender's regular sequence wraps with its wrapIn-th next frame (the reverse
 	// direction 200 frames later).
 	wrapIn int
+	// early (with wrapIn): at the start of the sender's current key epoch five frames
+	// with sequence numbers 0xFD..0x101 crossed the link and were delivered; their
+	// link frames are recorded in *old for the adversary to replay near the wrap.
+	early bool
+	old   *[][]byte
 	// build produces the byte strings fed to the receiver from the held link frames
 	// (and the held frames of the reverse direction, if any).
 	build func(held [][]byte, rev [][]byte) [][]byte
@@ -135,6 +140,41 @@ func run(t *testing.T, sc scenario) (res result) {
 		if sc.reverse {
 			src, dst, link, rlink = b, a, w.LinkB, w.LinkA
 			fromSrcIsA = false
+		}
+		var earlyWire [][]byte
+		if sc.wrapIn > 0 && sc.early {
+			ss, ds := peering.VerifLinkEncSession(link), peering.VerifLinkEncSession(rlink)
+			hs := &state.EncryptionSessionTestHelper{EncryptionSession: ss}
+			hd := &state.EncryptionSessionTestHelper{EncryptionSession: ds}
+			hs.ReglSetOut(0xFC)
+			_ = hd.ReglSeq().Check(0xFC)
+			var rec [][]byte
+			w.OnMsg = func(idx int, fromA bool, msg []byte) (toB, toA [][]byte) {
+				if fromA != sc.reverse {
+					rec = append(rec, msg)
+				}
+				return kit.Honest(fromA, msg)
+			}
+			for i := 0; i < 5; i++ {
+				pl := payloadFor(800+i, 40)
+				f, err := src.FrameBuilder().NewFrameV1(src.Identity().IP, dst.Identity().IP, frame.SessionData, nil, pl, nil)
+				if err != nil {
+					panic(err)
+				}
+				d, _ := f.FrameDataWithMargins(0, 0)
+				earlyWire = append(earlyWire, append([]byte(nil), d...))
+				_ = link.Send(f)
+				w.Pump(3)
+			}
+			for {
+				select {
+				case <-dst.SwitchIn:
+					continue
+				default:
+				}
+				break
+			}
+			*sc.old = rec
 		}
 		if sc.wrapIn > 0 {
 			// a long-lived link: counters of both directions just below the 32-bit wrap
@@ -327,6 +367,12 @@ func TestC05(t *testing.T) {
 				}
 			}
 			isPost := bytes.Contains(d, []byte("PAYLOAD-50")) || bytes.Contains(d, []byte("PAYLOAD-70"))
+			if bytes.Contains(d, []byte("PAYLOAD-80")) {
+				// a frame of the start of the key epoch, delivered once long ago: a second delivery is a replay.
+				rep.Violate(cls+"/duplicate-delivered", fmt.Sprintf("a frame delivered at the start of the key epoch was delivered again when it was replayed near the end of the epoch: %s", desc), desc)
+				rep.Outcome("duplicate-delivered!")
+				continue
+			}
 			if idx < 0 && !isPost {
 				rep.Violate(cls+"/altered-frame-delivered", fmt.Sprintf("a frame that was never handed to the link reached the remote frame handler (%d bytes): %s", len(d), desc), desc)
 				rep.Outcome("altered-delivered!")
@@ -673,6 +719,28 @@ func TestC05(t *testing.T) {
 				}
 				sc := scenario{name: fmt.Sprintf("near-wrap/%s@wrap-in-%d-rev%v", c.name, wrapIn, rv), frames: four, reverse: rv, expect: c.expect, wrapIn: wrapIn, build: c.build}
 				judge(sc, run(t, sc))
+			}
+			// frames of the START of the key epoch (sequence numbers 0xFD..0x101) replayed near its end.
+			for oi := 0; oi < 5; oi++ {
+				for pos := 0; pos <= 1; pos++ {
+					if !mine() {
+						continue
+					}
+					oi, pos := oi, pos
+					var old [][]byte
+					sc := scenario{name: fmt.Sprintf("near-wrap/replay-of-epoch-start-frame-seq%#x-at%d@wrap-in-%d-rev%v", 0xFD+oi, pos, wrapIn, rv), frames: four, reverse: rv, expect: 4, wrapIn: wrapIn, early: true, old: &old,
+						build: func(h, r [][]byte) [][]byte {
+							out := [][]byte{}
+							for i, x := range h {
+								if i == pos {
+									out = append(out, old[oi])
+								}
+								out = append(out, x)
+							}
+							return out
+						}}
+					judge(sc, run(t, sc))
+				}
 			}
 		}
 	}
